@@ -40,6 +40,18 @@ def public_entries(model: Model):
     return out
 
 
+def _default_text(f, d):
+    """Source text of a default; a bare name bound to a module-level constant stands for that constant (its value is
+    what a caller observes, not its spelling)."""
+    if d is None:
+        return None
+    if isinstance(d, ast.Name):
+        v = f.module.assigns.get(d.id)
+        if isinstance(v, ast.Constant):
+            return ast.unparse(v)
+    return ast.unparse(d)
+
+
 def describe(f):
     a = f.node.args
     ps = []
@@ -48,11 +60,11 @@ def describe(f):
     for p, d in zip(pos, defaults):
         if p.arg in ("self", "cls"):
             continue
-        ps.append({"name": p.arg, "kind": "pos", "default": ast.unparse(d) if d is not None else None})
+        ps.append({"name": p.arg, "kind": "pos", "default": _default_text(f, d)})
     if a.vararg is not None:
         ps.append({"name": a.vararg.arg, "kind": "vararg", "default": None})
     for p, d in zip(a.kwonlyargs, a.kw_defaults):
-        ps.append({"name": p.arg, "kind": "kwonly", "default": ast.unparse(d) if d is not None else None})
+        ps.append({"name": p.arg, "kind": "kwonly", "default": _default_text(f, d)})
     if a.kwarg is not None:
         ps.append({"name": a.kwarg.arg, "kind": "kwarg", "default": None})
     return ps
